@@ -521,6 +521,17 @@ func (c *checker) resolveNew() {
 	}
 }
 
+// notReproduced records an observation that no replay reproduces. The wording of a rejection is
+// compared on top of what the other properties ask (C10: "exactly the responses"); where it
+// depends on something outside the simulator's seams it is noted, never a reason for "no verdict".
+func (c *checker) notReproduced(fv *foundViolation, msg string) {
+	if fv.v.Oracle == "rejection-differs" {
+		c.traceNote = append(c.traceNote, "not reproducible, noted only: "+msg)
+		return
+	}
+	c.unreproduced = append(c.unreproduced, msg)
+}
+
 func (c *checker) replayDir() string {
 	d := filepath.Join(os.Getenv("DST_VERIF_DIR"), "replays")
 	_ = os.MkdirAll(d, 0755)
@@ -601,7 +612,7 @@ func (c *checker) makeReplay(fv *foundViolation) string {
 			rp.Plans = append(c.historyPlans(fv), plan)
 			rp.Note = "the difference depends on what the node executed before: `plans` run in one fresh node, `alone` in another"
 			if ok2, _ := replayReproduces(rp); !ok2 {
-				c.unreproduced = append(c.unreproduced, fmt.Sprintf("cross-process difference for plan %d did not reproduce, neither alone nor after the history of its node; detail: %s", fv.index, clip(fv.v.Detail, 300)))
+				c.notReproduced(fv, fmt.Sprintf("cross-process difference for plan %d did not reproduce, neither alone nor after the history of its node; detail: %s", fv.index, clip(fv.v.Detail, 300)))
 				return ""
 			}
 			rp = c.reduceHistory(rp, hbudget)
@@ -624,7 +635,7 @@ func (c *checker) makeReplay(fv *foundViolation) string {
 			if ok3, _ := replayReproduces(rp); !ok3 {
 				rp.Plans[len(rp.Plans)-1] = fv.plan
 				if ok4, _ := replayReproduces(rp); !ok4 {
-					c.unreproduced = append(c.unreproduced, fmt.Sprintf("violation %s of plan %d did not reproduce in a fresh node, neither alone nor after the history of its node; detail: %s", fv.v.Key, fv.index, clip(fv.v.Detail, 300)))
+					c.notReproduced(fv, fmt.Sprintf("violation %s of plan %d did not reproduce in a fresh node, neither alone nor after the history of its node; detail: %s", fv.v.Key, fv.index, clip(fv.v.Detail, 300)))
 					return ""
 				}
 			}
@@ -667,7 +678,7 @@ func (c *checker) writeReplay(rp *Replay, fv *foundViolation) string {
 		ok, _ = replayReproduces(&back)
 	}
 	if !ok {
-		c.unreproduced = append(c.unreproduced, fmt.Sprintf("replay %s (key %s) does not reproduce in 8 attempts", p, fv.v.Key))
+		c.notReproduced(fv, fmt.Sprintf("replay %s (key %s) does not reproduce in 8 attempts", p, fv.v.Key))
 		_ = os.Remove(p)
 		return ""
 	}
